@@ -36,6 +36,8 @@ var ModSeeds = []string{
 	"module example.com/m\n\nrequire (\n\ta.com/x v1.0.0 // s1\n\ta.com/x v1.0.0 // s2\n\ta.com/x v1.1.0 // s3\n)\n",
 	// 14: block comments and trailing comments
 	"module example.com/m // s0\n\n// before go\ngo 1.20 // s1\n\n// before block\nrequire ( // on lparen\n\t// b1\n\ta.com/x v1.0.0 // s2\n) // on rparen\n\n// trailing comment\n",
+	// 16: module paths that are spelled like directive keywords
+	"module example.com/m\n\ngo 1.20\n\nrequire (\n\trequire v1.0.0 // s1\n\texclude v1.1.0 // s2\n)\n\nexclude (\n\texclude v1.0.0 // s3\n\trequire v1.1.0\n)\n\nreplace require => ../require // s4\n\nreplace (\n\treplace v1.0.0 => module v1.2.0 // s5\n)\n",
 	// 15: blank lines inside blocks, followed by leading comments of the next line
 	"module example.com/m\n\ngo 1.20\n\nrequire (\n\ta.com/x v1.0.0 // s1\n\n\t// b2\n\tb.com/y v1.1.0 // s2\n\n\t// b3\n\t// b3b\n\ta.com/x/v2 v2.0.0 // s3\n)\n\nexclude (\n\ta.com/x v1.0.0 // s4\n\n\t// b5\n\ta.com/x v1.1.0 // s5\n)\n",
 }
@@ -99,6 +101,16 @@ func ModOps(full bool) []Op {
 	}
 	add("AddRequire", "a.com/x/v2", "v2.0.0")
 	add("DropRequire", "a.com/x/v2")
+	// paths spelled like keywords
+	add("AddRequire", "require", "v1.1.0")
+	add("DropRequire", "require")
+	add("AddExclude", "exclude", "v1.1.0")
+	add("AddReplace", "replace", "", "../replace", "")
+	if full {
+		add("AddRequire", "exclude", "v1.0.0")
+		add("DropExclude", "exclude", "v1.0.0")
+		add("DropReplace", "replace", "v1.0.0")
+	}
 	// versions with build metadata that is part of the canonical form
 	add("AddExclude", "b.com/y", "v2.0.0+incompatible")
 	add("DropExclude", "b.com/y", "v2.0.0+incompatible")
@@ -135,6 +147,7 @@ func ModOps(full bool) []Op {
 		add(k, "")
 		add(k, "a.com/x@v1.1.0")
 		add(k, "a.com/x@v1.0.0!,b.com/y@v1.1.0")
+		add(k, "require@v1.1.0,exclude@v1.1.0!")
 		if full {
 			add(k, "b.com/y@v1.0.0!,a.com/x/v2@v2.0.0")
 		}
